@@ -1,4 +1,403 @@
-From DV Require Import Base.Prelude Model.NetM.
-Theorem placeholder_c18 : neTimeout = 1.
-Proof. reflexivity. Qed.
-Print Assumptions placeholder_c18.
+(* C18 - a network exchange returns only a genuine response; stream framing is exact.
+   Every theorem is universally quantified over the message parser (parse : wire -> what
+   dns.message.from_wire finds), over the script of socket events (datagrams, would-blocks with
+   their duration, chunk sizes, EOF), the clock, the deadline and the five option flags. *)
+From DV Require Import Base.Prelude Model.NameM Model.NetM Proofs.NameOrder Proofs.NetUdp Proofs.NetStream.
+Open Scope Z_scope.
+
+(* ---------------- the acceptance predicate ---------------- *)
+
+(* Message.is_response is exactly: QR set, same id, same opcode, and the same question section (as
+   sets, names up to ASCII case) - or an error rcode with an empty question - or a dynamic update *)
+Theorem is_response_is_the_acceptance_predicate :
+  forall q r, is_response q r = true <-> genuine q r.
+Proof. exact is_response_iff. Qed.
+Print Assumptions is_response_is_the_acceptance_predicate.
+
+(* a source is accepted only if it is the queried address (binary compare in the socket's family)
+   and port - or the destination is multicast and the port matches *)
+Theorem source_accepted_only_if_matching :
+  forall af from dest iu, matches_destination af from dest iu = Ok true -> src_ok af from dest.
+Proof. exact matches_destination_sound. Qed.
+Print Assumptions source_accepted_only_if_matching.
+
+Theorem source_check_as_configured :
+  forall af from dest iu, src_defined af dest ->
+  (src_ok af from dest -> matches_destination af from dest iu = Ok true) /\
+  (~ src_ok af from dest ->
+   matches_destination af from dest iu = if iu then Ok false else Lib neUnexpectedSource).
+Proof. exact matches_destination_spec. Qed.
+Print Assumptions source_check_as_configured.
+
+(* from_wire hands out a message only for a well-formed datagram *)
+Theorem parsed_ok_is_wellformed :
+  forall a it rot m, from_wire_out a it rot = POk m ->
+  p_short a = false /\ p_err a = None /\ m = p_msg a /\
+  (p_trailing a = true -> it = true) /\ (rot = true -> has_tc m = false).
+Proof. exact from_wire_ok_wellformed. Qed.
+Print Assumptions parsed_ok_is_wellformed.
+
+(* ---------------- UDP: soundness for ALL scripts and options ---------------- *)
+
+Theorem udp_returns_genuine :
+  forall parse q qwire where_ timeout af o sevs evs now i r wire t from rest,
+  udp parse q qwire where_ timeout af o sevs evs now = (i, Ok (r, wire, t, from, rest)) ->
+  genuine q r /\ src_ok af from (Some where_) /\
+  from_wire_out (parse wire) (o_ignore_trailing o) (o_raise_on_truncation o) = POk r /\
+  exists pre, evs = pre ++ UData wire from :: rest /\ i = (length pre + 1)%nat.
+Proof. exact NetUdp.udp_returns_genuine. Qed.
+Print Assumptions udp_returns_genuine.
+
+Theorem forged_never_returned :
+  forall parse q qwire where_ timeout af o sevs evs now i r wire t from rest,
+  udp parse q qwire where_ timeout af o sevs evs now = (i, Ok (r, wire, t, from, rest)) ->
+  ~ forged parse q where_ af o wire from.
+Proof. exact NetUdp.forged_never_returned. Qed.
+Print Assumptions forged_never_returned.
+
+Theorem only_forged_never_ok :
+  forall parse q qwire where_ timeout af o sevs evs now,
+  (forall wire from, In (UData wire from) evs -> forged parse q where_ af o wire from) ->
+  forall i x, udp parse q qwire where_ timeout af o sevs evs now <> (i, Ok x).
+Proof. exact NetUdp.only_forged_never_ok. Qed.
+Print Assumptions only_forged_never_ok.
+
+(* receive_udp on its own: what it returns was read from an accepted source, parsed without error,
+   and (ignore_errors with a query) answers the query *)
+Theorem receive_udp_returns_checked :
+  forall parse af dest expiration o query evs now i j m wire t from rest,
+  receive_udp parse af dest expiration o query evs now i = (j, Ok (m, wire, t, from, rest)) ->
+  exists pre, evs = pre ++ UData wire from :: rest /\ j = (i + length pre + 1)%nat /\
+    matches_destination af from dest (o_ignore_unexpected o) = Ok true /\
+    from_wire_out (parse wire) (o_ignore_trailing o) (o_raise_on_truncation o) = POk m /\
+    (o_ignore_errors o = true -> forall q, query = Some q -> is_response q m = true).
+Proof. exact receive_udp_ok. Qed.
+Print Assumptions receive_udp_returns_checked.
+
+(* ---------------- UDP: skip or raise as configured; completeness ---------------- *)
+
+(* whatever the configuration says to pass over is passed over, however long the prefix *)
+Theorem ignorable_prefix_is_skipped :
+  forall parse af dest expiration o query pre now now',
+  passes parse af dest expiration o query pre now now' ->
+  forall evs i, receive_udp parse af dest expiration o query (pre ++ evs) now i
+              = receive_udp parse af dest expiration o query evs now' (i + length pre)%nat.
+Proof. exact passes_skipped. Qed.
+Print Assumptions ignorable_prefix_is_skipped.
+
+Theorem raise_or_skip_as_configured :
+  forall (parse : list Z -> pabs) q qwire where_ timeout af o pre wire from rest now now',
+  let exp := snd (compute_times now timeout) in
+  let fw := from_wire_out (parse wire) (o_ignore_trailing o) (o_raise_on_truncation o) in
+  let call := udp parse q qwire where_ timeout af o [] (pre ++ UData wire from :: rest) now in
+  let pos := (length pre + 1)%nat in
+  passes parse af (Some where_) exp o (Some q) pre now now' ->
+  src_defined af (Some where_) ->
+  (~ src_ok af from (Some where_) -> o_ignore_unexpected o = false ->
+     call = (pos, Lib neUnexpectedSource)) /\
+  (src_ok af from (Some where_) -> o_ignore_errors o = false -> forall e, fw = PErr e ->
+     call = (pos, err_res e)) /\
+  (src_ok af from (Some where_) -> o_ignore_errors o = false -> forall m, fw = POk m -> ~ genuine q m ->
+     call = (pos, Lib neBadResponse)) /\
+  (src_ok af from (Some where_) -> forall m, fw = POk m -> genuine q m ->
+     call = (pos, Ok (m, wire, now' - now, from, rest))) /\
+  (ignorable parse af (Some where_) o (Some q) wire from ->
+     passes parse af (Some where_) exp o (Some q) (pre ++ [UData wire from]) now now').
+Proof. exact NetUdp.raise_or_skip_as_configured. Qed.
+Print Assumptions raise_or_skip_as_configured.
+
+(* a genuine truncated reply is reported as truncation when asked *)
+Theorem truncation_reported :
+  forall parse q qwire where_ timeout af o pre wire from rest now now',
+  let exp := snd (compute_times now timeout) in
+  passes parse af (Some where_) exp o (Some q) pre now now' ->
+  src_defined af (Some where_) -> src_ok af from (Some where_) ->
+  o_raise_on_truncation o = true ->
+  p_short (parse wire) = false -> has_tc (p_msg (parse wire)) = true ->
+  (forall e, p_err (parse wire) = Some e -> is_formerr e = true) ->
+  genuine q (p_msg (parse wire)) ->
+  udp parse q qwire where_ timeout af o [] (pre ++ UData wire from :: rest) now
+  = ((length pre + 1)%nat, Lib neTruncated).
+Proof. exact NetUdp.truncation_reported. Qed.
+Print Assumptions truncation_reported.
+
+(* an expired deadline is an error: nothing but ignorable traffic until the deadline is Timeout *)
+Theorem udp_deadline_is_error :
+  forall parse q qwire where_ t af o pre now now',
+  passes parse af (Some where_) (Some (now + t)) o (Some q) pre now now' ->
+  src_defined af (Some where_) ->
+  udp parse q qwire where_ (Some t) af o [] pre now = (length pre, Lib neTimeout).
+Proof. exact NetUdp.udp_deadline_is_error. Qed.
+Print Assumptions udp_deadline_is_error.
+
+Theorem udp_wait_past_deadline_is_timeout :
+  forall parse af dest expiration o query pre now now' dt rest i e,
+  passes parse af dest expiration o query pre now now' -> expiration = Some e ->
+  (match dt with Some d => e - now' <= d | None => True end) ->
+  receive_udp parse af dest expiration o query (pre ++ UBlock dt :: rest) now i
+  = ((i + length pre + 1)%nat, Lib neTimeout).
+Proof. exact deadline_is_error_recv. Qed.
+Print Assumptions udp_wait_past_deadline_is_timeout.
+
+(* ---------------- streams ---------------- *)
+
+(* for every chunking / would-block / EOF script and any deadline: a successful read of n octets
+   is exactly the next n octets, and the rest of the stream is preserved *)
+Theorem net_read_chunking :
+  forall expiration sk count res sk',
+  net_read expiration sk count = Ok (res, sk') ->
+  res = firstn count (rs_stream sk) /\ length res = count /\ rs_stream sk = res ++ rs_stream sk'.
+Proof. exact NetStream.net_read_chunking. Qed.
+Print Assumptions net_read_chunking.
+
+(* and under every script that only fragments and delays, the read does succeed *)
+Theorem net_read_chunking_complete :
+  forall sk count, Forall benign_r (rs_evs sk) -> (count <= length (rs_stream sk))%nat ->
+  exists sk', net_read None sk count = Ok (firstn count (rs_stream sk), sk')
+              /\ rs_stream sk' = skipn count (rs_stream sk) /\ Forall benign_r (rs_evs sk').
+Proof. exact NetStream.net_read_chunking_complete. Qed.
+Print Assumptions net_read_chunking_complete.
+
+Theorem eof_is_error :
+  forall expiration sk count, (length (rs_stream sk) < count)%nat ->
+  forall r, net_read expiration sk count <> Ok r.
+Proof. exact NetStream.eof_is_error. Qed.
+Print Assumptions eof_is_error.
+
+Theorem eof_is_eoferror :
+  forall sk count, Forall benign_r (rs_evs sk) -> (length (rs_stream sk) < count)%nat ->
+  net_read None sk count = Lib neEOF.
+Proof. exact NetStream.eof_is_eoferror. Qed.
+Print Assumptions eof_is_eoferror.
+
+(* a read that meets a would-block lasting to the deadline does not return a message
+   (if it returned, it had finished before that would-block) *)
+Theorem deadline_is_error :
+  forall e pre dt rest sk count,
+  rs_evs sk = pre ++ RBlock dt :: rest -> no_wait pre ->
+  (match dt with Some d => e - rs_now sk <= d | None => True end) ->
+  forall res sk', net_read (Some e) sk count = Ok (res, sk') ->
+  (length (rs_evs sk') > length rest)%nat.
+Proof. exact NetStream.deadline_is_error. Qed.
+Print Assumptions deadline_is_error.
+
+Theorem read_never_waits_past_deadline :
+  forall e evs stream count s now res sk,
+  net_read_loop (Some e) evs stream count s now = Ok (res, sk) -> rs_now sk = now \/ rs_now sk < e.
+Proof. exact net_read_loop_deadline. Qed.
+Print Assumptions read_never_waits_past_deadline.
+
+Theorem send_all_in_order :
+  forall exp evs data now sent evs' now',
+  net_write_loop exp evs data [] now = Ok (sent, evs', now') -> sent = data.
+Proof. exact NetStream.send_all_in_order. Qed.
+Print Assumptions send_all_in_order.
+
+Theorem send_all_complete :
+  forall evs data sent now, Forall benign_w evs ->
+  exists evs' now', net_write_loop None evs data sent now = Ok (sent ++ data, evs', now').
+Proof. exact NetStream.send_all_complete. Qed.
+Print Assumptions send_all_complete.
+
+Theorem send_failure_leaves_a_prefix :
+  forall exp evs data sent now,
+  exists done, net_write_trace exp evs data sent now = sent ++ done /\ exists rest, data = done ++ rest.
+Proof. exact net_write_trace_prefix. Qed.
+Print Assumptions send_failure_leaves_a_prefix.
+
+(* ---------------- framing ---------------- *)
+
+Theorem receive_tcp_exact :
+  forall parse exp it sk m wire sk',
+  receive_tcp parse exp it sk = Ok (m, wire, sk') ->
+  exists hi lo, rs_stream sk = hi :: lo :: wire ++ rs_stream sk' /\
+                length wire = Z.to_nat (hi * 256 + lo) /\
+                from_wire_out (parse wire) it false = POk m.
+Proof. exact NetStream.receive_tcp_exact. Qed.
+Print Assumptions receive_tcp_exact.
+
+Theorem tcp_frame_roundtrip :
+  forall parse what more exp wevs now n sent evs' now' exp2 it revs now2 m wire sk',
+  send_tcp exp wevs what now = Ok (n, (sent, evs', now')) ->
+  receive_tcp parse exp2 it {| rs_stream := sent ++ more; rs_evs := revs; rs_now := now2 |}
+    = Ok (m, wire, sk') ->
+  wire = what /\ rs_stream sk' = more /\ from_wire_out (parse what) it false = POk m.
+Proof. exact NetStream.tcp_frame_roundtrip. Qed.
+Print Assumptions tcp_frame_roundtrip.
+
+Theorem tcp_frame_roundtrip_complete :
+  forall parse what more it revs now2,
+  zlen what <= 65535 -> Forall benign_r revs ->
+  exists sk', rs_stream sk' = more /\ Forall benign_r (rs_evs sk') /\
+    receive_tcp parse None it {| rs_stream := frame what ++ more; rs_evs := revs; rs_now := now2 |}
+    = match from_wire_out (parse what) it false with
+      | POk m => Ok (m, what, sk')
+      | PTrunc _ => Lib neTruncated
+      | PErr e => err_res e
+      end.
+Proof. exact NetStream.tcp_frame_roundtrip_complete. Qed.
+Print Assumptions tcp_frame_roundtrip_complete.
+
+Theorem send_tcp_frames_in_order :
+  forall exp msgs evs now sent,
+  send_tcp_n exp evs msgs now = Ok sent ->
+  sent = concat (map frame msgs) /\ Forall (fun w => zlen w <= 65535) msgs.
+Proof. exact send_tcp_n_frames. Qed.
+Print Assumptions send_tcp_frames_in_order.
+
+Theorem receive_tcp_messages_in_order :
+  forall parse exp it more msgs k sk j m w t,
+  (k <= length msgs)%nat ->
+  rs_stream sk = concat (map frame msgs) ++ more ->
+  Forall (fun w => zlen w <= 65535) msgs ->
+  nth_error (receive_tcp_n parse exp it k sk) j = Some (Ok (m, w, t)) ->
+  nth_error msgs j = Some w /\ from_wire_out (parse w) it false = POk m.
+Proof. exact receive_tcp_n_in_order. Qed.
+Print Assumptions receive_tcp_messages_in_order.
+
+Theorem oversized_message_is_refused :
+  forall exp evs what now, zlen what > 65535 -> send_tcp exp evs what now = Internal niOverflow.
+Proof. exact send_tcp_too_long. Qed.
+Print Assumptions oversized_message_is_refused.
+
+Theorem tcp_returns_genuine :
+  forall parse q qwire timeout it wevs stream revs now m wire t sent sk,
+  tcp parse q qwire timeout it wevs stream revs now = Ok (m, wire, t, sent, sk) ->
+  genuine q m /\ sent = frame qwire /\
+  from_wire_out (parse wire) it false = POk m /\
+  exists hi lo, stream = hi :: lo :: wire ++ rs_stream sk /\ length wire = Z.to_nat (hi * 256 + lo).
+Proof. exact NetStream.tcp_returns_genuine. Qed.
+Print Assumptions tcp_returns_genuine.
+
+(* ---------------- non-vacuity ---------------- *)
+
+Module Ex.
+  Definition nm : name := [[119;119;119]; [101;120]; []].            (* www.ex. *)
+  Definition nmU : name := [[87;87;87]; [69;88]; []].               (* WWW.EX. *)
+  Definition qe (n : name) : qent := {| q_name := n; q_class := 1; q_type := 1 |}.
+  Definition q : msg := {| m_id := 4660; m_flags := 256; m_ednsflags := 0; m_question := [qe nm] |}.
+  Definition good : msg := {| m_id := 4660; m_flags := 33152; m_ednsflags := 0; m_question := [qe nmU] |}.
+  Definition wrongid : msg := {| m_id := 4661; m_flags := 33152; m_ednsflags := 0; m_question := [qe nm] |}.
+  Definition trunc : msg := {| m_id := 4660; m_flags := 33664; m_ednsflags := 0; m_question := [qe nm] |}.
+  Definition server : addr := {| a_v4 := Some [10;0;0;53]; a_v6 := None; a_rest := [53] |}.
+  Definition other : addr := {| a_v4 := Some [10;0;0;54]; a_v6 := None; a_rest := [53] |}.
+  (* wire strings are abstract here: [1] = the genuine reply, [2] = wrong id, [3] = garbage,
+     [4] = genuine with TC *)
+  Definition parse (w : list Z) : pabs :=
+    match w with
+    | [1] => {| p_short := false; p_msg := good; p_err := None; p_trailing := false |}
+    | [2] => {| p_short := false; p_msg := wrongid; p_err := None; p_trailing := false |}
+    | [4] => {| p_short := false; p_msg := trunc; p_err := Some neFormError; p_trailing := false |}
+    | _ => {| p_short := true; p_msg := empty_msg; p_err := None; p_trailing := false |}
+    end.
+  Definition lenient : uopts :=
+    {| o_ignore_unexpected := true; o_one_rr_per_rrset := false; o_ignore_trailing := false;
+       o_raise_on_truncation := true; o_ignore_errors := true |}.
+  Definition strict : uopts :=
+    {| o_ignore_unexpected := false; o_one_rr_per_rrset := false; o_ignore_trailing := false;
+       o_raise_on_truncation := false; o_ignore_errors := false |}.
+  Definition junk : list uev := [UData [1] other; UBlock (Some 2); UData [2] server; UData [3] server].
+End Ex.
+
+(* the case-insensitively equal reply is genuine; the wrong id is not *)
+Example ex_genuine : genuine Ex.q Ex.good /\ ~ genuine Ex.q Ex.wrongid.
+Proof.
+  split; [apply is_response_iff; vm_compute; reflexivity|].
+  intros H. apply is_response_iff in H. vm_compute in H. discriminate.
+Qed.
+
+(* udp() does return something: spoofed source, wrong id and garbage are skipped, the genuine
+   reply behind them is returned (hypothesis of udp_returns_genuine is satisfiable) *)
+Example ex_udp_ok :
+  udp Ex.parse Ex.q [9] Ex.server (Some 10) AF_INET Ex.lenient [] (Ex.junk ++ [UData [1] Ex.server]) 100
+  = (5%nat, Ok (Ex.good, [1], 2, Ex.server, [])).
+Proof. vm_compute. reflexivity. Qed.
+
+(* the strict configuration raises on the first spoofed datagram *)
+Example ex_udp_strict :
+  udp Ex.parse Ex.q [9] Ex.server (Some 10) AF_INET Ex.strict [] (Ex.junk ++ [UData [1] Ex.server]) 100
+  = (1%nat, Lib neUnexpectedSource).
+Proof. vm_compute. reflexivity. Qed.
+
+Example ex_src_defined : src_defined AF_INET (Some Ex.server).
+Proof. vm_compute. auto. Qed.
+
+Example ex_src : src_ok AF_INET Ex.server (Some Ex.server) /\ ~ src_ok AF_INET Ex.other (Some Ex.server).
+Proof.
+  split.
+  - left. exists [10;0;0;53]. vm_compute. auto.
+  - intros [(n & H1 & H2 & _) | [H _]].
+    + vm_compute in H1, H2. congruence.
+    + unfold multicast, Ex.server in H. cbn [a_v4] in H. lia.
+Qed.
+
+(* the `passes` hypothesis of the configured-outcome theorems is inhabited by a non-trivial prefix *)
+Example ex_passes :
+  passes Ex.parse AF_INET (Some Ex.server) (Some 110) Ex.lenient (Some Ex.q) Ex.junk 100 102.
+Proof.
+  pose proof ex_src as [S1 S2]. pose proof ex_src_defined as D. pose proof ex_genuine as [_ G].
+  unfold Ex.junk.
+  apply pass_data. { split; [exact D|]. left. split; [exact S2 | reflexivity]. }
+  eapply pass_block. { vm_compute. reflexivity. }
+  apply pass_data.
+  { split; [exact D|]. right. split; [exact S1|]. split; [reflexivity|]. right.
+    exists Ex.q, Ex.wrongid. split; [reflexivity|]. split; [left; vm_compute; reflexivity | exact G]. }
+  apply pass_data.
+  { split; [exact D|]. right. split; [exact S1|]. split; [reflexivity|]. left.
+    exists neShortHeader. vm_compute. reflexivity. }
+  apply pass_nil.
+Qed.
+
+(* the truncation hypotheses are satisfiable, and the model agrees with the theorem's conclusion *)
+Example ex_truncation :
+  udp Ex.parse Ex.q [9] Ex.server (Some 10) AF_INET Ex.lenient [] (Ex.junk ++ [UData [4] Ex.server]) 100
+  = (5%nat, Lib neTruncated)
+  /\ genuine Ex.q (p_msg (Ex.parse [4])) /\ has_tc (p_msg (Ex.parse [4])) = true.
+Proof.
+  split; [vm_compute; reflexivity|]. split; [apply is_response_iff; vm_compute; reflexivity|].
+  vm_compute. reflexivity.
+Qed.
+
+(* streams: a 5-octet stream read as 2 + 3 under the chunking 1,1,would-block,2,1 *)
+Example ex_net_read :
+  let sk := {| rs_stream := [0;3;7;8;9;42]; rs_evs := [RAvail 1; RAvail 1; RBlock (Some 1); RAvail 2; RAvail 1]; rs_now := 0 |} in
+  Forall benign_r (rs_evs sk) /\
+  exists sk', net_read None sk 2 = Ok ([0;3], sk') /\
+              exists sk'', net_read None sk' 3 = Ok ([7;8;9], sk'') /\ rs_stream sk'' = [42].
+Proof.
+  cbn zeta. split.
+  - repeat constructor.
+  - eexists. split; [vm_compute; reflexivity|]. eexists. split; vm_compute; reflexivity.
+Qed.
+
+Example ex_eof :
+  net_read None {| rs_stream := [0;3;7]; rs_evs := [RAvail 2; REof]; rs_now := 0 |} 5 = Lib neEOF.
+Proof. vm_compute. reflexivity. Qed.
+
+Example ex_deadline :
+  net_read (Some 5) {| rs_stream := [0;3;7]; rs_evs := [RAvail 2; RBlock (Some 5); RAvail 1]; rs_now := 0 |} 3
+  = Lib neTimeout.
+Proof. vm_compute. reflexivity. Qed.
+
+(* send_tcp then receive_tcp, both fragmented *)
+Example ex_roundtrip :
+  exists n sent evs' now',
+    send_tcp None [WAccept 1; WBlock (Some 1); WAccept 0; WAccept 2] [1] 0 = Ok (n, (sent, evs', now'))
+    /\ sent = [0; 1; 1]
+    /\ exists sk', receive_tcp Ex.parse None false
+                     {| rs_stream := sent ++ [0;1;2]; rs_evs := [RAvail 1; RAvail 1; RAvail 5]; rs_now := 0 |}
+                   = Ok (Ex.good, [1], sk') /\ rs_stream sk' = [0;1;2].
+Proof.
+  do 4 eexists. split; [vm_compute; reflexivity|]. split; [reflexivity|].
+  eexists. split; vm_compute; reflexivity.
+Qed.
+
+Example ex_tcp :
+  exists sk, tcp Ex.parse Ex.q [9;9] (Some 10) false [WAccept 1] [0;1;1;0;1;2] [RAvail 1; RBlock (Some 3)] 0
+             = Ok (Ex.good, [1], 3, [0;2;9;9], sk) /\ rs_stream sk = [0;1;2].
+Proof. eexists. split; vm_compute; reflexivity. Qed.
+
+(* a forged reply over TCP is BadResponse *)
+Example ex_tcp_forged :
+  tcp Ex.parse Ex.q [9;9] None false [] [0;1;2] [] 0 = Lib neBadResponse.
+Proof. vm_compute. reflexivity. Qed.
